@@ -9,6 +9,7 @@ import (
 	"fmt"
 	"go/token"
 	"math"
+	"strings"
 
 	"golang.org/x/tools/go/ssa"
 )
@@ -196,6 +197,12 @@ func (z *zone) define(in ssa.Instruction) {
 			}
 		}
 	case *ssa.Call:
+		if f := w.Call.StaticCallee(); f != nil && f.Pkg != nil && (f.Pkg.Pkg.Path() == "bytes" || f.Pkg.Pkg.Path() == "strings") &&
+			strings.HasPrefix(f.Name(), "Index") && isIntType(w.Type()) {
+			// post-condition of the Index family: the result is -1 or a valid position
+			z.add(0, 0, z.node(w), 0, 1)
+			return
+		}
 		b, ok := w.Call.Value.(*ssa.Builtin)
 		if !ok {
 			return
@@ -266,6 +273,16 @@ type zonePathResult struct {
 // selected by isSuccess, asks oblig whether the required inequalities hold.
 func checkZoneFunction(p *Prog, fn *ssa.Function, nonNegOnNilErr map[*ssa.Function]bool,
 	isSuccess func(rt *ssa.Return) bool, oblig func(z *zone, rt *ssa.Return) (bool, string)) *zonePathResult {
+	return zoneWalk(p, fn, nonNegOnNilErr, isSuccess, oblig, nil)
+}
+
+// zoneWalk is checkZoneFunction with an optional block hook: atBlock is asked
+// on entry to every block (after the phis were bound to the incoming edge);
+// when it returns stop the path ends there (this is how a loop-free prefix of
+// a function with a loop is analysed), and !ok counts as a failed obligation.
+func zoneWalk(p *Prog, fn *ssa.Function, nonNegOnNilErr map[*ssa.Function]bool,
+	isSuccess func(rt *ssa.Return) bool, oblig func(z *zone, rt *ssa.Return) (bool, string),
+	atBlock func(b, from *ssa.BasicBlock, z *zone) (stop, ok bool, why string)) *zonePathResult {
 	res := &zonePathResult{}
 	onPath := map[*ssa.BasicBlock]bool{}
 	var walk func(b *ssa.BasicBlock, from *ssa.BasicBlock, z *zone, trail []*ssa.BasicBlock)
@@ -303,6 +320,20 @@ func checkZoneFunction(p *Prog, fn *ssa.Function, nonNegOnNilErr map[*ssa.Functi
 					z.add(t, 0, n, o, 0)
 					z.add(n, o, t, 0, 0)
 				}
+			}
+		}
+		if atBlock != nil && !z.infeasible() {
+			if stop, ok, why := atBlock(b, from, z); stop {
+				res.paths++
+				res.successReturns++
+				if !ok {
+					res.bad++
+					if res.witness == nil {
+						res.witness = blocksString(p, trail)
+						res.detail = why
+					}
+				}
+				return
 			}
 		}
 		for _, in := range b.Instrs {
